@@ -28,8 +28,21 @@ def main():
         sh(f'git -C {WT} checkout -- . && git -C {WT} clean -fdq')
         r = sh(f'git -C {WT} apply {d}/patch.diff')
         if r.returncode:
-            print(name, 'PATCH DOES NOT APPLY', r.stderr[:200])
-            continue
+            # /repo moved on (fix: commits) since the change was written: apply with fuzz and store the rebased patch
+            r = sh(f'cd {WT} && patch -p1 -F3 --no-backup-if-mismatch < {d}/patch.diff')
+            if r.returncode:
+                print(name, 'PATCH DOES NOT APPLY', r.stdout[-200:])
+                sh(f'git -C {WT} checkout -- . && git -C {WT} clean -fdq')
+                continue
+            if not os.path.exists(d + '/patch.original.diff'):
+                sh(f'cp {d}/patch.diff {d}/patch.original.diff')
+            open(d + '/patch.diff', 'w').write(sh(f'git -C {WT} diff -- src').stdout)
+            meta['rebased'] = 'patch.diff was re-created on the current /repo HEAD with patch -F3; the original is patch.original.diff'
+        demo = sh(f'cd {WT} && PYTHONPATH={WT}/src /venv/bin/python {d}/demo.py >/dev/null 2>&1; echo $?').stdout.strip()
+        meta['demo_on_current_head_with_change'] = 'FAIL' if demo != '0' else 'PASS'
+        if demo == '0':
+            meta['neutralised'] = ('the demonstration passes with the change applied to the current /repo HEAD: a later fix: commit made this '
+                                   'change harmless, it no longer breaks the property')
         out = tempfile.mkdtemp(prefix='vfout.')
         r = sh(f'cd /verif && VF_REPO={WT} VF_OUT={out} /venv/bin/python -m vf {prop} --tier quick')
         sigs = [l.strip()[10:].split(' count=')[0] for l in r.stdout.splitlines() if l.strip().startswith('signature=')]
@@ -38,7 +51,7 @@ def main():
                                    'first_signatures': sigs[:3]}
         json.dump(meta, open(d + '/meta.json', 'w'), indent=1)
         sh(f'rm -rf {out}; git -C {WT} checkout -- .')
-        print(name, 'DETECTED' if caught else 'MISSED rc=%d' % r.returncode, sigs[:1])
+        print(name, 'DETECTED' if caught else ('NEUTRALISED' if meta.get('neutralised') else 'MISSED rc=%d' % r.returncode), sigs[:1])
         summary.append((name, caught))
     print('detected %d of %d' % (sum(1 for _, c in summary if c), len(summary)))
 
